@@ -415,6 +415,10 @@ func (s *streamGRPC) RecvMsg(m interface{}) error {
 			return err
 		}
 		size = uint32(buf.Len())
+		if buf.Len() > s.opts.maxReceiveMessageSize {
+			bufPool.Put(buf)
+			return fmt.Errorf("grpc: received message after decompression larger than max (%d vs. %d)", size, s.opts.maxReceiveMessageSize)
+		}
 		if int(size) > cap(b) {
 			b = make([]byte, 0, growcap(cap(b), int(size)))
 		}
